@@ -50,6 +50,20 @@ def cpp_program(draw, tier: str, n_structs: Tuple[int, int] = (8, 14), can: bool
                 f.type = _flatten(f.type)
             if exclude is not None:
                 f.type = exclude(s, f.type)
+    # arrays with the same element chain but different lengths (and their nested transposes) in one program
+    for st_ in s.structs:
+        if draw(st.integers(0, 3)) == 0 and len(st_.fields) <= 4:
+            leaf = draw(st.sampled_from([M.U(8), M.I(12), M.U(3), M.F32()]))
+            n1, n2 = draw(st.sampled_from([(2, 3), (4, 8), (1, 2), (3, 2)]))
+            used = {f.name for f in st_.fields}
+            fn = draw(S.unique_names(cpp_field, 2, 2, list(used)))
+            top = max(f.fid for f in st_.fields)
+            if draw(st.booleans()):
+                t1, t2 = M.Arr(leaf, n1), M.Arr(leaf, n2)
+            else:
+                t1, t2 = M.Arr(M.Arr(leaf, n1), n2), M.Arr(M.Arr(leaf, n2), n1)
+            st_.fields.append(M.Field(fn[0], top + 2, t1))
+            st_.fields.append(M.Field(fn[1], top + 1, t2))
     names = {d.name for d in s.decls}
     structs = [x.name for x in s.structs]
     if services and draw(st.booleans()):
